@@ -1,6 +1,11 @@
 package main
 
 import (
+	"crypto/tls"
+	"errors"
+	"github.com/fluffle/goirc/client"
+	"verif/harness/memconn"
+
 	"encoding/json"
 	"fmt"
 	"strings"
@@ -131,7 +136,114 @@ func runScenarios(c *Ctx, prop string, scs []LifeScenario, tags []string) {
 	c.RunCases(cases)
 }
 
+// c06Refusals: a Connect that fails - no server configured, the dial fails, the TLS handshake fails after a
+// successful dial, an unusable proxy URL - fires no event and leaves the client unconnected: Connected() is false,
+// Close does nothing, and once the cause is removed the same client connects, registers once and ends with one
+// DISCONNECTED. Judged by Spec.Life on the recorded history.
+func c06Refusals(c *Ctx) {
+	kinds := []string{"no-server", "dial-error", "tls-handshake", "bad-proxy-url"}
+	for i := 0; i < c.Pick(8, 40); i++ {
+		kind := kinds[i%len(kinds)]
+		track := c.R.Bool()
+		desc := fmt.Sprintf("Connect fails (%s), then Close, then the cause is removed and the same client connects (tracking=%v)", kind, track)
+		c.Journal("C06 refusal: " + desc)
+		url, conns := memconn.Listen()
+		cfg := client.NewConfig("me", "ident", "Real")
+		cfg.Server, cfg.Proxy, cfg.Flood, cfg.PingFreq, cfg.Timeout = "irc.test", url, true, 0, 3*time.Second
+		switch kind {
+		case "no-server":
+			cfg.Server = ""
+		case "dial-error":
+			memconn.FailDial(url, errors.New("connection refused"))
+		case "tls-handshake":
+			cfg.SSL = true
+			cfg.SSLConfig = &tls.Config{InsecureSkipVerify: true}
+		case "bad-proxy-url":
+			cfg.Proxy = "nosuchscheme://x"
+		}
+		conn := client.Client(cfg)
+		if track {
+			conn.EnableStateTracking()
+		}
+		lg := &lifeLog{}
+		conn.HandleFunc(client.REGISTER, func(cn *client.Conn, _ *client.Line) { lg.add("REGISTER flag=%s", flagStr(cn.Connected())) })
+		conn.HandleFunc(client.CONNECTED, func(cn *client.Conn, _ *client.Line) { lg.add("CONNECTED flag=%s", flagStr(cn.Connected())) })
+		conn.HandleFunc(client.DISCONNECTED, func(cn *client.Conn, _ *client.Line) { lg.add("DISCONNECTED flag=%s", flagStr(cn.Connected())) })
+		evCount := func() int { return lg.count("REGISTER") + lg.count("CONNECTED") + lg.count("DISCONNECTED") }
+		lg.add("connect-call")
+		res := make(chan error, 1)
+		go func() { res <- conn.Connect() }()
+		if kind == "tls-handshake" { // the dial succeeds; the peer then answers the ClientHello with something that is not TLS
+			select {
+			case srv := <-conns:
+				srv.Send("ERROR :this port does not speak TLS\r\n")
+				time.Sleep(time.Millisecond)
+				srv.EOF()
+			case <-time.After(3 * time.Second):
+			}
+		}
+		var err error
+		select {
+		case err = <-res:
+		case <-time.After(10 * time.Second):
+			c.SpecFail("spec", desc, "", "Connect neither succeeded nor failed within 10s", map[string]interface{}{"op": "failed-connect", "kind": kind})
+			continue
+		}
+		if err != nil {
+			lg.add("connect-ret err")
+		} else {
+			lg.add("connect-ret ok")
+		}
+		flagAfter := conn.Connected()
+		n := evCount()
+		conn.Close()
+		time.Sleep(2 * time.Millisecond)
+		if evCount() != n {
+			lg.add("close-when-closed fired events")
+		}
+		// remove the cause
+		cfg.Server, cfg.Proxy, cfg.SSL = "irc.test", url, false
+		memconn.FailDial(url, nil)
+		lg.add("connect-call")
+		err2 := conn.Connect()
+		if err2 != nil {
+			lg.add("connect-ret err")
+		} else {
+			lg.add("connect-ret ok")
+			select {
+			case srv := <-conns:
+				s2 := &session{conn: conn, srv: srv}
+				if s2.sync(3*time.Second) && conn.Connected() {
+					lg.add("alive")
+				} else {
+					lg.add("not-alive")
+				}
+			case <-time.After(2 * time.Second):
+				lg.add("not-alive")
+			}
+			lg.add("cause close")
+			conn.Close()
+			lg.add("close-ret")
+			waitFor(func() bool { return lg.count("DISCONNECTED") >= 1 }, 3*time.Second)
+		}
+		lg.mu.Lock()
+		evs := append([]string(nil), lg.evs...)
+		lg.mu.Unlock()
+		toks, _ := lifeTokens(evs)
+		c.Res.Traces++
+		rp := map[string]interface{}{"op": "failed-connect", "kind": kind, "track": track, "log": evs}
+		if err == nil || flagAfter {
+			c.SpecFail("spec", desc, "", fmt.Sprintf("the failing Connect returned %v and left Connected() = %v", err, flagAfter), rp)
+		}
+		if err2 != nil {
+			c.SpecFail("spec", desc, "", "after the cause was removed the same client could not connect: "+err2.Error(), rp)
+		}
+		c.RunCases([]Case{{Desc: desc, Spec: []string{"spec06 1 " + toks}, Tag: "failed-connect/" + kind, Key: fmt.Sprintf("%s/%v/%d/%d", kind, track, i, c.Seed), Replay: rp}})
+	}
+}
+
 func c06(c *Ctx) {
+	c06Refusals(c)
 	causes := []string{"close", "eof", "readerr", "writeerr", "cancel", "close+eof", "close+writeerr", "cancel+eof", "close+cancel", "eof+writeerr"}
 	var scs []LifeScenario
 	var tags []string
